@@ -6,6 +6,7 @@ import tempfile
 from vlib.runner import Spec, Suite
 
 HARNESS = ("h_generator", ["h_generator.cpp"], {})
+HARNESS_T = ("h_generator_t", ["h_generator_t.cpp"], {"extra_flags": ["-fno-access-control", "-I/verif/harness/shim"]})
 
 ACCESS = ("next", "anext", "call", "begin", "inc", "pinc", "for", "sub", "subr")
 REJECT = ("busy", "gone", "n/a", "noit", "bad-op", "blocked", "bad")
@@ -38,6 +39,69 @@ def parse_script(line):
         elif a[0] == "x":
             break
     return ys, ending, acts
+
+
+def make_checks(ys, ending, msgs):
+    """the position-by-position statement of C13: what access number i must deliver (n = number of yielded values)"""
+    n = len(ys)
+
+    def expect(i):
+        """what access number i must deliver"""
+        if i < n:
+            return ("val", ys[i])
+        if i == n:
+            return (ending, None)
+        return ("end", None)
+
+    def check_item(i, seen, how):
+        """seen: 'v:<n>' | 'exc' | 'novalue' | 'false' | 'nomore' | 'end' (for) -- a complete description of what access i delivered"""
+        kind, v = expect(i)
+        if kind == "val":
+            if seen.startswith("v:"):
+                if int(seen[2:]) != v:
+                    msgs.append("sequence: access #%d (%s) delivered %s, the body's value #%d is %d" % (i, how, seen, i, v))
+            elif seen == "exc":
+                msgs.append("exception: access #%d (%s) raised the body's exception before value %d" % (i, how, v))
+            else:
+                msgs.append("end: access #%d (%s) reported %s but the body yields %d there" % (i, how, seen, v))
+        elif kind == "exc":
+            if seen != "exc":
+                msgs.append("exception: access #%d (%s) delivered %s, the body throws at that position" % (i, how, seen))
+        elif kind == "fin":
+            if seen not in ("false", "novalue", "end"):
+                msgs.append("end: access #%d (%s) delivered %s, the body ends at that position" % (i, how, seen))
+        else:
+            if seen not in ("false", "novalue", "end", "nomore"):
+                msgs.append("end: access #%d (%s) delivered %s after the end of the sequence" % (i, how, seen))
+
+    def check_truth(i, truth, how):
+        """truth: 'true' | 'false' | 'nomore' -- the boolean face of an access (next / co_await next / iterators)"""
+        kind, v = expect(i)
+        if truth == "true":
+            if kind in ("fin", "end"):
+                msgs.append("end: access #%d (%s) announced an item after the sequence had ended" % (i, how))
+        elif truth == "false":
+            if kind == "val":
+                msgs.append("end: access #%d (%s) reported the end but the body yields %d there" % (i, how, v))
+            elif kind == "exc":
+                msgs.append("exception: access #%d (%s) reported the end, the body throws at that position" % (i, how))
+        elif truth == "nomore":
+            if kind != "end":
+                msgs.append("end: access #%d (%s) threw no_more_values before the sequence had ended" % (i, how))
+
+    def check_read(cur, r, how):
+        """value() / *it re-reads what the most recent access (number cur) delivered"""
+        if cur is None:
+            want = "notready"
+        else:
+            k2, v2 = expect(cur)
+            want = {"val": "v:%s" % v2, "exc": "exc", "fin": "notready",
+                    "end": "exc" if ending == "exc" else "notready"}[k2]
+        if r != want:
+            cat = "exception" if "exc" in (r, want) else "value"
+            msgs.append("%s: %s after access #%s gave %s, expected %s" % (cat, how, cur, r, want))
+
+    return expect, check_item, check_truth, check_read
 
 
 def split_line(line):
@@ -247,61 +311,7 @@ class GenSuite(Suite):
         if len(out) != len(ops):
             return ["lost: %d output lines for %d input lines" % (len(out), len(ops))]
 
-        def expect(i):
-            """what access number i must deliver"""
-            if i < n:
-                return ("val", ys[i])
-            if i == n:
-                return (ending, None)
-            return ("end", None)
-
-        def check_item(i, seen, how):
-            """seen: 'v:<n>' | 'exc' | 'novalue' | 'false' | 'nomore' | 'end' (for) -- a complete description of what access i delivered"""
-            kind, v = expect(i)
-            if kind == "val":
-                if seen.startswith("v:"):
-                    if int(seen[2:]) != v:
-                        msgs.append("sequence: access #%d (%s) delivered %s, the body's value #%d is %d" % (i, how, seen, i, v))
-                elif seen == "exc":
-                    msgs.append("exception: access #%d (%s) raised the body's exception before value %d" % (i, how, v))
-                else:
-                    msgs.append("end: access #%d (%s) reported %s but the body yields %d there" % (i, how, seen, v))
-            elif kind == "exc":
-                if seen != "exc":
-                    msgs.append("exception: access #%d (%s) delivered %s, the body throws at that position" % (i, how, seen))
-            elif kind == "fin":
-                if seen not in ("false", "novalue", "end"):
-                    msgs.append("end: access #%d (%s) delivered %s, the body ends at that position" % (i, how, seen))
-            else:
-                if seen not in ("false", "novalue", "end", "nomore"):
-                    msgs.append("end: access #%d (%s) delivered %s after the end of the sequence" % (i, how, seen))
-
-        def check_truth(i, truth, how):
-            """truth: 'true' | 'false' | 'nomore' -- the boolean face of an access (next / co_await next / iterators)"""
-            kind, v = expect(i)
-            if truth == "true":
-                if kind in ("fin", "end"):
-                    msgs.append("end: access #%d (%s) announced an item after the sequence had ended" % (i, how))
-            elif truth == "false":
-                if kind == "val":
-                    msgs.append("end: access #%d (%s) reported the end but the body yields %d there" % (i, how, v))
-                elif kind == "exc":
-                    msgs.append("exception: access #%d (%s) reported the end, the body throws at that position" % (i, how))
-            elif truth == "nomore":
-                if kind != "end":
-                    msgs.append("end: access #%d (%s) threw no_more_values before the sequence had ended" % (i, how))
-
-        def check_read(cur, r, how):
-            """value() / *it re-reads what the most recent access (number cur) delivered"""
-            if cur is None:
-                want = "notready"
-            else:
-                k2, v2 = expect(cur)
-                want = {"val": "v:%s" % v2, "exc": "exc", "fin": "notready",
-                        "end": "exc" if ending == "exc" else "notready"}[k2]
-            if r != want:
-                cat = "exception" if "exc" in (r, want) else "value"
-                msgs.append("%s: %s after access #%s gave %s, expected %s" % (cat, how, cur, r, want))
+        expect, check_item, check_truth, check_read = make_checks(ys, ending, msgs)
 
         nacc = 0                 # accesses started so far
         cur = None               # index of the most recent completed access whose item is the generator's current one
@@ -540,6 +550,175 @@ class ExhSuite(GenSuite):
         return cases
 
 
+class BatonSuite(Suite):
+    """real threads under the baton scheduler (harness/shim): a consumer thread doing blocking accesses vs a thread completing the
+    awaited operations, every interposed atomic operation (`_block.store/wait`, future/promise, sync_awaiter flag) a scheduling
+    point; all 0/1 schedules up to a length for every scenario (beyond the schedule the consumer thread is preferred: it runs
+    ahead into the window right after each notification). Oracle only: the property evaluated on the consumer's observations."""
+    harness = HARNESS_T
+    driver = None
+    compare = False
+    corpus_prefix = "c13t_"
+    chunk = 64
+    timeout = 600
+    nontrivial_rule = "the completing thread resumed the body at least once and the consumer made at least two accesses"
+
+    FIXED = [
+        # (mode, script, consumer ops, completion order)
+        ("a", "y1 p0 n y2 p1 y3", ["next 10", "value", "next 11", "value", "next 12", "value", "next 13"], "0 1"),
+        ("v", "y1 p0 y2 p1 y3 t", ["next", "value", "next", "value", "next", "value", "next", "value", "next"], "0 1"),
+        ("a", "n y1 p0 y2 p1 n y3", ["call 10", "fwait", "call 11", "fwait", "call 12", "fwait", "call 13", "fwait"], "0 1"),
+        ("v", "g y1 p0 y2 p1 y3", ["for"], "0 1"),
+        ("v", "g y1 p0 g y2 p1 y3", ["next", "next", "value", "destroy"], "0 1"),
+        ("a", "y1 f0 n y2 f1 y3", ["next 10", "value", "next 11", "value", "next 12", "value"], "0 1"),
+        ("a", "p0 n y1 p1 y2 p2 y3 x", ["next 10", "call 11", "fwait", "next 12", "value", "call 13", "fwait"], "0 1 2"),
+        ("a", "y1 p0 y2 p1 n t", ["call 10", "fwait", "next 11", "value", "next 12", "value", "call 13"], "0 1"),
+    ]
+
+    def __init__(self, name="threads-baton"):
+        self.name = name
+
+    def scenario(self, rng):
+        mode = rng.choice(["a", "v"])
+        acts, v, ks = [], 1, []
+        for _ in range(rng.randint(3, 7)):
+            r = rng.random()
+            if r < 0.4:
+                acts.append("y%d" % v)
+                v += rng.randint(1, 4)
+            elif r < 0.7:
+                k = len(ks)
+                acts.append(("p%d" if rng.random() < 0.75 else "f%d") % k)
+                ks.append(k)
+            elif r < 0.85:
+                acts.append("n")
+            elif r < 0.95:
+                acts.append("g")
+            else:
+                acts.append("t")
+        if not ks:
+            acts.insert(min(1, len(acts)), "p0")
+            ks = [0]
+        ops, arg = [], 10
+        for _ in range(rng.randint(3, 6)):
+            r = rng.random()
+            if r < 0.55:
+                ops.append("next %d" % arg if mode == "a" else "next")
+                if rng.random() < 0.7:
+                    ops.append("value")
+            elif r < 0.85:
+                ops += ["call %d" % arg if mode == "a" else "call", "fwait"]
+            elif mode == "v" and r < 0.93:
+                ops.append("for")
+            else:
+                ops.append("destroy")
+            arg += 1
+        return (mode, " ".join(acts), ops, " ".join(map(str, ks)))
+
+    def gen_cases(self, rng, tier):
+        import itertools
+        if tier == "quick":
+            scns, length = self.FIXED + [self.scenario(rng) for _ in range(6)], 9
+        else:
+            scns, length = self.FIXED + [self.scenario(rng) for _ in range(40)], 12
+        cases = []
+        for mode, script, ops, ks in scns:
+            for bits in itertools.product("01", repeat=length):
+                lines = ["case 0 %s" % mode, "script " + script] + ["c " + o for o in ops] + ["k " + ks, "sched " + " ".join(bits), "end"]
+                cases.append({"id": 0, "lines": lines})
+        return cases
+
+    def normalize(self, lines):
+        return [l for l in lines if not l.startswith("s ")]
+
+    def oracle(self, case, out):
+        msgs = []
+        lines = case["lines"]
+        mode = lines[0].split()[2]
+        ys, ending, acts = parse_script(lines[1])
+        n = len(ys)
+        expect, check_item, check_truth, check_read = make_checks(ys, ending, msgs)
+        nacc, cur, last_arg, need_got = 0, None, None, None
+        fut_idx, pending_start, alive, ended = None, None, True, False
+        for l in out:
+            w = l.split()
+            if not w:
+                continue
+            if w[0] == "assert-failed":
+                msgs.append("assert: a library assertion failed in a schedule of correct use: %s" % " ".join(w[1:]))
+            elif w[0] == "crash":
+                msgs.append("crash: the run died (%s)" % " ".join(w[1:]))
+            elif w[0] == "deadlock":
+                msgs.append("lost: deadlock - an access was never served")
+            elif w[0] == "lost":
+                msgs.append("lost: a future stayed pending")
+            elif w[0] == "b" and w[1].startswith("got="):
+                g = int(w[1][4:])
+                if mode == "a" and g != last_arg:
+                    msgs.append("argument: the body received %d, the call that resumed it passed %s" % (g, last_arg))
+                need_got = None
+            elif w[0] == "c>":
+                if w[1] in ("next", "call") and len(w) > 2:
+                    pending_start = int(w[2])
+                if w[1] in ("next", "call") and alive:
+                    # the argument is handed over at the start of the access
+                    if len(w) > 2:
+                        last_arg = int(w[2])
+                    if mode == "a" and 1 <= nacc <= n:
+                        need_got = (nacc, last_arg)
+            elif w[0] == "c<":
+                op, res = w[1], w[2:]
+                if res and res[0] in ("gone", "busy", "n/a", "bad-op", "nofut"):
+                    need_got = None
+                    continue
+                if op in ("next", "call") and need_got is not None and res[0] != "nomore" and not (op == "call" and res[0] == "pending"):
+                    msgs.append("argument: the co_yield resumed by access #%d did not return its argument %s" % need_got)
+                    need_got = None
+                if op == "next":
+                    check_truth(nacc, res[0], "next()")
+                    cur = nacc
+                    nacc += 1
+                elif op == "value":
+                    check_read(cur, res[0], "value()")
+                elif op == "call":
+                    if res[0] == "nomore":
+                        check_item(nacc, "nomore", "call")
+                    else:
+                        fut_idx = nacc
+                    nacc += 1
+                elif op == "fwait":
+                    if fut_idx is not None:
+                        check_item(fut_idx, res[0], "future.wait()")
+                        cur = fut_idx
+                elif op == "for":
+                    for j, itx in enumerate(res):
+                        check_item(nacc + j, itx, "range-for")
+                    if not res or res[-1].startswith("v:"):
+                        msgs.append("lost: range-for produced no end marker")
+                    nacc += len(res)
+                    cur = nacc - 1
+                elif op == "destroy":
+                    alive = False
+            elif w[0] == "end":
+                ended = True
+                kv = dict(x.split("=") for x in w[1:] if "=" in x)
+                if kv and (kv.get("made") != kv.get("once") or kv.get("multi") != "0"):
+                    msgs.append("destroy: %s guards constructed in the body, %s destroyed exactly once, %s more than once"
+                                % (kv.get("made"), kv.get("once"), kv.get("multi")))
+        if not ended:
+            msgs.append("lost: the run did not finish")
+        return msgs
+
+    def nontrivial(self, case, out):
+        return any(l.startswith("k ") for l in out) and sum(1 for l in out if l.startswith("c< next") or l.startswith("c< call")) >= 2
+
+    def stats(self, cases, outs):
+        scen = {" | ".join(c["lines"][:-2]) for c in cases}
+        resumed = sum(sum(1 for l in outs.get(str(c["id"]), []) if l.startswith("k ")) for c in cases)
+        return {"scenarios": len(scen), "schedules": len(cases), "schedule_length": len(cases[0]["lines"][-2].split()) - 1 if cases else 0,
+                "bodies_resumed_by_the_completing_thread": resumed}
+
+
 class C13(Spec):
     pid = "C13"
     lean_modules = ["CoclsModel.Props.C13"]
@@ -565,7 +744,7 @@ class C13(Spec):
                    "value() is not called while an asynchronous access is outstanding"]
 
     def suites(self):
-        return [GenSuite(n) for n in PROFILES] + [ExhSuite(i, 4) for i in range(4)]
+        return [GenSuite(n) for n in PROFILES] + [ExhSuite(i, 4) for i in range(4)] + [BatonSuite()]
 
 
 SPEC = C13()
